@@ -79,3 +79,46 @@ fn kd9_fill_window_slide_keeps_deferred_match() {
     core::mem::forget(state);
 }
 
+
+/// `longest_match` walks the hash chain with a counter taken from `max_chain_length`, which deflateTune stores unchecked
+/// (any integer, truncated to 16 bits).  Whatever its value — 0 included — the walk must not abort (C06: "any parameter
+/// values ... never panics"); it ends at the latest when the chain leaves the window.  Concrete window and chain of three
+/// candidates that all differ from the current string in their first byte; symbolic tuning parameters.
+#[kani::proof]
+#[kani::unwind(6)]
+#[kani::stub(core::fmt::write, stub_fmt_write)]
+#[kani::stub(core::panicking::panic_nounwind, stub_pn)]
+#[kani::stub(core::panicking::panic_nounwind_fmt, stub_pnf)]
+fn kd9_longest_match_any_chain_length() {
+    const WB: usize = 9;
+    const W: usize = 1 << WB;
+    const LB: usize = 16;
+    let mut w = [0u8; 2 * W];
+    let mut k = 0;
+    while k < 2 * W {
+        w[k] = (k % 251) as u8;
+        k += 1;
+    }
+    let mut p = [0u16; W];
+    p[300] = 200;
+    p[200] = 100;
+    p[100] = 0;
+    let mut h = [0u16; HASH_SIZE];
+    let mut pe = [MaybeUninit::new(0u8); 4 * LB];
+    let mut sy = [0u8; 3 * LB];
+    let mut state = typed_state(&mut w, &mut p, &mut h, &mut pe, &mut sy, WB, LB, 6, 0, Strategy::Default);
+    state.window_size = 2 * W;
+    state.strstart = 400;
+    state.lookahead = 262;
+    state.prev_length = 0;
+    state.match_start = 0;
+    state.max_chain_length = kani::any();
+    state.good_match = kani::any();
+    state.nice_match = kani::any();
+    let (len, start) = crate::deflate::longest_match::longest_match(&state, 300);
+    assert!(len <= 262 && (start as usize) < 400);
+    assert!(len == STD_MIN_MATCH - 1, "no candidate matches: the best length stays below the minimum");
+    kani::cover!(state.max_chain_length == 0);
+    kani::cover!(state.max_chain_length == 2);
+    core::mem::forget(state);
+}
